@@ -1,7 +1,7 @@
 """C15 — append-only and dry-run modes never remove or overwrite stored data.
 
 MC : Repo.tla with AppendOnly = TRUE: action property NoRemoval (no snapshot / index / pack ever leaves the store).
-RP : Prog.tla enumerates all programs of <= 2 operations (quick) and simulated programs of <= 4 over the public
+RP : (alphabet incl. copy-into from a second repository) Prog.tla enumerates all programs of <= 2 operations (quick) and simulated programs of <= 4 over the public
      operation alphabet; each runs on an append-only repository.  Separately every command runs with its dry-run flag.
 TV : RepoTrace.tla over the storage log: AppendOnly (no remove of snapshot/index/pack while append-only),
      RefusedEarly (a command refused for append-only has issued no mutating operation), Overwrite, DryRun
@@ -49,6 +49,8 @@ def op_step(rng, name, files, nsn):
         return {"cmd": "add_key"}
     if name == "merge":
         return {"cmd": "merge"}
+    if name == "copy_into":
+        return {"cmd": "copy_into", "files": gen.evolve(rng, files)}
     raise ValueError(name)
 
 
